@@ -74,7 +74,12 @@ func c17Sweeps(tier string) []sweep {
 	atoms := pathAtoms(u)
 	// a Consumes-restricted variant so that 415 (routable, not 404/405) occurs
 	atoms = append(atoms, atom{"/a", rm.RouteDecl{Method: "POST", Sub: "/{x}", Consumes: []string{rs.JSON}}})
+	// route paths declared without a leading slash
+	atoms = append(atoms, bareAtoms([]string{"/", "/a", "/a/"}, []string{"{x}", "b/{x}"}, []string{"GET", "POST"})...)
 	out := []sweep{{"P1", rm.Curly, singles(atoms), reqs}, {"P2", rm.Curly, pairs(atoms), reqs}}
+	// P2r: the two-route tables whose routes share a service, the second route declared by using the
+	// first route's RouteBuilder again (other method / path)
+	out = append(out, sweep{"P2r", rm.Curly, sameService(pairs(atoms)), reqs})
 	out = append(out, sweep{"MX", rm.Curly, mxTables(), crossReqs([]h.Req{{Segs: []string{"m", "1"}}, {Segs: []string{"m"}}}, c17MXMethods, rs.PathSweepHeaders[:1], false)})
 	if tier == "thorough" {
 		u3 := u
@@ -159,9 +164,9 @@ func judgeURL(p *rm.Parsed, path string, r rm.Router, methods []string, plain, f
 	return res
 }
 
-func c17Probe(t rm.Table, r rm.Router, base h.Req, methods []string) ([]rs.Outcome, []rs.Outcome, []map[string][]string) {
-	bp := rs.Build(t, rs.BuildOpt{Router: r})
-	bf := rs.Build(t, rs.BuildOpt{Router: r, Options: true})
+func c17Probe(t rm.Table, r rm.Router, base h.Req, methods []string, reuse bool) ([]rs.Outcome, []rs.Outcome, []map[string][]string) {
+	bp := rs.Build(t, rs.BuildOpt{Router: r, Reuse: reuse})
+	bf := rs.Build(t, rs.BuildOpt{Router: r, Options: true, Reuse: reuse})
 	var plain, filt []rs.Outcome
 	var hdr []map[string][]string
 	for _, m := range methods {
@@ -210,7 +215,7 @@ func c17AfterRemoval(t rm.Table, r rm.Router, base h.Req, methods []string) ([]r
 func replayC17(rc routingCase, o rs.Outcome) error {
 	r := routerOf(rc.Router)
 	c17Methods := c17MethodsOf(rc.Sweep)
-	plain, filt, hdr := c17Probe(rc.Table, r, rc.Req, c17Methods)
+	plain, filt, hdr := c17Probe(rc.Table, r, rc.Req, c17Methods, rc.Reuse)
 	for i, m := range c17Methods {
 		fmt.Printf("%-8s plain: %-30s with OPTIONS filter: %s %v\n", m, plain[i].Key(), filt[i].Key(), hdr[i])
 	}
@@ -241,8 +246,9 @@ func checkC17(run *h.Run) {
 			name := fmt.Sprintf("%s/%s", router, sp.Name)
 			order = append(order, name)
 			st := runSweep(run, sp, func(w *worker, t rm.Table, p *rm.Parsed, st *sweepStats) {
-				bp := rs.Build(t, rs.BuildOpt{Router: router})
-				bf := rs.Build(t, rs.BuildOpt{Router: router, Options: true})
+				reuse := sp.Name == "P2r"
+				bp := rs.Build(t, rs.BuildOpt{Router: router, Reuse: reuse})
+				bf := rs.Build(t, rs.BuildOpt{Router: router, Options: true, Reuse: reuse})
 				if bp.Panic != "" || bf.Panic != "" {
 					atomic.AddInt64(&st.buildPanics, 1)
 					return
@@ -269,11 +275,11 @@ func checkC17(run *h.Run) {
 					}
 					path := w.mreqs[base].Path
 					for _, res := range judgeURL(p, path, router, c17Methods, plain, filt, hdr) {
-						rc := routingCase{Sweep: sp.Name, Router: router.String(), Table: t, Req: w.reqs[base]}
+						rc := routingCase{Sweep: sp.Name, Router: router.String(), Table: t, Req: w.reqs[base], Reuse: reuse}
 						base := base
 						class := "allow-mismatch/" + router.String()
 						run.Violate(class, res.finding, fmt.Sprintf("[%s] %v : %s", router, t, res.why), rc, func() bool {
-							pl, fl, hd := c17Probe(t, router, w.reqs[base], c17Methods)
+							pl, fl, hd := c17Probe(t, router, w.reqs[base], c17Methods, reuse)
 							return len(judgeURL(p, path, router, c17Methods, pl, fl, hd)) > 0
 						})
 					}
@@ -309,7 +315,7 @@ func checkC17(run *h.Run) {
 	run.Cov["evaluations"] = disp
 	run.Cov["distinct_nontrivial"] = nontriv
 	run.Cov["exhaustive"] = true
-	run.Cov["rule"] = "E1: every table of 1-2 routes (thorough: also 3) over literal / plain-variable tokens and nested literal roots x every URL of <= 3 segments; a state is one (table, URL) with one probe per method in {GET, POST, PUT, OPTIONS, DELETE} on a container with the OPTIONS filter and on a filter-less twin; routable(URL) is measured on the twin. P1 tables again with dynamic routes: OPTIONS served, the route removed, every method probed again (nothing memoised may survive). MX: 2-3 routes on one template in every order over extension methods whose names contain one another (LOCK/UNLOCK, PATCH/PROPPATCH). Non-trivial: some method is not answered 404."
+	run.Cov["rule"] = "E1: every table of 1-2 routes (thorough: also 3) over literal / plain-variable tokens and nested literal roots x every URL of <= 3 segments; a state is one (table, URL) with one probe per method in {GET, POST, PUT, OPTIONS, DELETE} on a container with the OPTIONS filter and on a filter-less twin; routable(URL) is measured on the twin. P2r: the two-route tables whose routes share a service, the second route declared by using the first route's RouteBuilder again. P1 tables again with dynamic routes: OPTIONS served, the route removed, every method probed again (nothing memoised may survive). MX: 2-3 routes on one template in every order over extension methods whose names contain one another (LOCK/UNLOCK, PATCH/PROPPATCH). Non-trivial: some method is not answered 404."
 	run.Assume = []string{"routable(URL) is measured, not modelled: {m | status(m, URL) not in {404, 405}} on the filter-less twin"}
 }
 
